@@ -69,3 +69,40 @@ def coq_eval_list(name, source, var="MISMATCH"):
         nums = [int(x) for x in re.findall(r"-?\d+", part.replace("%nat", "").replace("%Z", ""))]
         items.append(tuple(nums) if len(nums) > 1 else nums[0])
     return items, out
+
+
+def restart_oracle(r):
+    why = []
+    if r.get("error"):
+        why.append("restart scenario could not be driven: " + r["error"])
+    elif r["executed"] == 0:
+        why.append("after Stop(); Start() with the loop of the stopped run still alive (%s), a due job scheduled for the new run was not executed "
+                   "within 5 s: its wake-up was consumed by the stopped run's loop" % r["variant"])
+    elif r["by_stopped_run"]:
+        why.append("the loop of the stopped run dequeued and executed a job of the new run (cancelled context)")
+    elif r["executed"] > 1:
+        why.append("the due job was executed %d times" % r["executed"])
+    return why
+
+
+def run_restart(binp, seed, n):
+    rc, rows, out = run_json([binp, "restart", str(seed), str(n)], timeout=600)
+    if rc != 0:
+        raise RuntimeError("looph restart failed: " + out[-2000:])
+    return [r for r in rows if r.get("kind") == "restart"]
+
+
+def restart_failures(binp, seed, n):
+    """Trials of the restart scenario that fail the oracle, confirmed by a second batch."""
+    rows = run_restart(binp, seed, n)
+    bad = [r for r in rows if restart_oracle(r)]
+    out = []
+    if bad:
+        again = [r for r in run_restart(binp, seed + 1, n) if restart_oracle(r)]
+        if again:
+            r = bad[0]
+            out.append({"case": {"kind": "restart", "variant": r["variant"], "seed": seed, "n": n}, "why": restart_oracle(r), "trace": r["trace"],
+                        "failing_trials": "%d of %d, then %d of %d" % (len(bad), len(rows), len(again), n),
+                        "how": "looph restart: Stop(); Start() while the old loop is inside a blocking job / a slow Size(); the new loop held between "
+                               "Head() and select; ScheduleJob of a due job; then the old loop continues"})
+    return rows, out
